@@ -63,7 +63,7 @@ class Report:
         self.inconclusive: List[str] = []
         self.extra: Dict[str, Any] = {}
         self._seen_cases: set = set()
-        self.known = [k for k in load_known() if k["property"] == pid]
+        self.known = [k for k in load_known() if k["property"] == pid or pid in k.get("also", [])]
         d = os.path.join(ROOT, "replays", pid)
         if os.path.isdir(d):
             for fn in os.listdir(d):
